@@ -610,6 +610,26 @@ Proof.
     + unfold r_move. simpl. intros H; inv_out H; apply frame_refl.
     + unfold r_move. simpl. destruct s; intros H; inv_out H; apply frame_refl.
     + apply frame_move.
+  - (* movebetween: the copy touches the destination, the removal the source *)
+    unfold r_movebetween. destruct (parg_eqb p q); [intros H; inv_out H; apply frame_refl|].
+    destruct q as [|d dtr]; [destruct p as [|[|? ?] ?]; intros H; inv_out H; apply frame_refl|].
+    destruct p as [|s str]; [intros H; inv_out H; apply frame_refl|].
+    destruct s as [|n s]; [discriminate|].
+    destruct (arg_conflict t (n :: s) str || arg_conflict t d dtr); [discriminate|].
+    destruct (exists_ t (n :: s) && is_dir t d && path_eqb (d ++ [base (n :: s)]) (n :: s)); [intros H; inv_out H; apply frame_refl|].
+    destruct (r_copy t (P (n :: s) str) (P d dtr)) as [|r1 t1] eqn:E; [discriminate|].
+    assert (Fc : frame t t1 [n :: s; d]).
+    { apply (frame_mono _ _ [d]); [intros x [<-|[]]; right; now left|]. eapply frame_copy; eauto. }
+    simpl. destruct r1; intros H; inv_out H; auto.
+    eapply frame_trans; [exact Fc|]. apply (frame_remove_sub _ _ _ (n :: s)); [now left|apply is_prefix_refl].
+  - (* createfile *) destruct p as [|p tr]; simpl; intros H; [inv_out H; apply frame_refl|].
+    destruct (through_file t p || tr || is_dir t p); [discriminate|].
+    destruct (is_dir t (parent p)); inv_out H; [|apply frame_refl].
+    apply (frame_set_file _ _ _ _ p); [now left|apply is_prefix_refl].
+  - (* openfile with O_CREATE *) destruct p as [|p tr]; simpl; intros H; [inv_out H; apply frame_refl|].
+    destruct (through_file t p || tr || is_dir t p); [discriminate|]. destruct (is_file t p); [inv_out H; apply frame_refl|].
+    destruct (is_dir t (parent p)); inv_out H; [|apply frame_refl].
+    apply (frame_set_file _ _ _ _ p); [now left|apply is_prefix_refl].
 Qed.
 
 (* ---------- a copy never changes its source ---------- *)
